@@ -189,6 +189,12 @@ func checkCase(c Case) (out evid.Outcome) {
 			rec := httptest.NewRecorder()
 			hreq := q.HTTP()
 			hreq.Header = hdr
+			if len(q.H) == 0 && len(q.P)%3 == 0 {
+				// a request built by hand may have no header map at all: it carries
+				// no value for any header
+				hreq.Header = nil
+				out.Classes = append(out.Classes, "nil-header-map")
+			}
 			f.ServeHTTP(rec, hreq)
 			// classification
 			ungated := model.Admitting(routes, q.P, hdr, nogate)
